@@ -73,4 +73,66 @@ theorem nextToken_split (s : Bytes) :
 theorem skipSpace_suffix (s : Bytes) : ∃ pre, pre ++ skipSpace s = s ∧ ∀ b ∈ pre, b = 32 ∨ b = 9 :=
   Robust.skipSpace_suffix s
 
+/-! ### non-vacuity -/
+section NonVacuity
+set_option linter.defProp false
+open WS WS.SrcLaw WS.ReaderRejects WS.Http
+
+/-- a server connection whose reader failed with ErrReadLimit `n` calls ago; unread bytes remain -/
+def witFailed (n : Nat) : Conn :=
+  { w := { newW true 4096 false false with writeErr := some .closeSent, wire := [0x88, 0x02, 0x03, 0xF1] },
+    r := { isServer := true, nego := false, readErr := some .readLimit, errCount := n, limit := 4,
+           buf := { size := 4096, buf := [0, 1, 2, 3], total := 12 } } }
+
+/-- non-vacuity of `panic_at_1000`: the 1000th failed call -/
+example : ∃ c', nextReader (witFailed 999) = (.panic, c') := panic_at_1000 (witFailed 999) .readLimit rfl (by decide)
+
+/-- non-vacuity of `no_panic_before_1000`: the 999th failed call -/
+example : ∃ c', nextReader (witFailed 998) = (.err .readLimit, c') :=
+  no_panic_before_1000 (witFailed 998) .readLimit rfl (by decide)
+
+/-- instance of `panic_iff` (no hypotheses): both sides hold for `witFailed 999` -/
+example : ((witFailed 999).r.readErr.isSome ∧ 1000 ≤ (witFailed 999).r.errCount + 1) ∧
+    ∃ c', nextReader (witFailed 999) = (.panic, c') :=
+  ⟨⟨rfl, by decide⟩, (panic_iff (witFailed 999)).mpr (Or.inl ⟨rfl, by decide⟩)⟩
+
+/-- a 4096-byte bufio.Reader holding the start of a frame header that claims a 2^63-1 byte payload;
+    the transport delivers 3 more bytes and then fails -/
+def witBuf : Buf :=
+  { size := 4096, buf := [0x82, 0xFF, 0x7F], t := { chunks := [[0xFF, 0xFF], [0xFF]], term := .transport 9 }, total := 6 }
+
+def witBuf_wf : WF witBuf := ⟨by decide, by decide, by decide, (by intro e h; cases h)⟩
+
+/-- non-vacuity of `header_read_bounded`: the 8-byte extended length is asked for after the 2 header
+    bytes; 6 pending bytes < 8 + 2 -/
+example : (witBuf.take 10).1.length ≤ max 10 witBuf.pending.length ∧
+    (witBuf.pending.length < 10 → (witBuf.take 10).2.1 = some (mapEOF witBuf.t.term)) :=
+  header_read_bounded witBuf witBuf_wf 10 (by decide)
+
+example : witBuf.pending.length < 10 ∧ (witBuf.take 10).2.1 = some (.transport 9) := by decide
+
+/-- non-vacuity of `skip_terminates_on_short_stream`: the claimed length 2^63 - 1 is never waited for -/
+example : (witBuf.skip (2 ^ 63 - 1)).1 = some (.transport 9) ∧ (witBuf.skip (2 ^ 63 - 1)).2.pending = [] :=
+  skip_terminates_on_short_stream witBuf witBuf_wf (2 ^ 63 - 1) (by decide)
+
+/-- a fresh client connection fed garbage: a frame with all reserved bits, opcode 15, then noise -/
+def witGarbage : Conn :=
+  { w := { newW false 4096 false false with keys := [1, 2, 3, 4] },
+    r := { isServer := false, nego := false, errCount := 0,
+           buf := { size := 4096, buf := [], t := { chunks := [[0xFF, 0xFF, 0xFF], [0x00, 0x13, 0x37]] }, total := 6 } } }
+
+/-- non-vacuity of `no_panic_on_any_input` -/
+example : ∀ c', nextReader witGarbage ≠ (.panic, c') := no_panic_on_any_input witGarbage (by decide)
+
+example : (nextReader witGarbage).2.r.readErr = some (.protocol "RSV1 set, RSV2 set, RSV3 set, bad opcode 15, bad MASK") := by
+  decide
+
+/-- instances of `nextTokenOrQuoted_length`, `nextToken_split`, `skipSpace_suffix` (no hypotheses):
+    a quoted string with an escape, `permessage-deflate; x`, leading blanks -/
+example : (nextTokenOrQuoted (strBytes "\"a\\\"b\"; rest")).1 = strBytes "a\"b" ∧
+    (nextToken (strBytes "permessage-deflate; x")).1 = strBytes "permessage-deflate" ∧
+    skipSpace (strBytes " \t websocket") = strBytes "websocket" := by decide +kernel
+
+end NonVacuity
+
 end WS.Props.C07
